@@ -74,6 +74,13 @@ def gen_cases(ctx):
                 p["num_machines"] = [k_hi, k_hi + rng.choice([0, 2, 4])]
                 if flag:
                     p["num_jobs"] = [k_hi + rng.choice([0, 1]), k_hi + 5]
+        if i % 12 == 11 and not conflict:
+            # many machines (two-digit ids, 16 and more), a count drawn from a range or fixed
+            lo16 = rng.randint(16, 22)
+            p["num_machines"] = rng.choice([[lo16, lo16 + rng.choice([2, 4, 8])], lo16, [lo16, lo16]])
+            jlo = rng.randint(2, 4) if not flag else lo16 + rng.randint(8, 10)
+            p["num_jobs"] = [jlo, jlo + rng.choice([0, 2])]
+            p["machines_per_operation"] = rng.choice([1, 1, [1, 3], [2, 4], 4])
         yield {"params": p, "draws": 10, "seed": rng.randrange(2**31), "instance": {"cls": "generated"},
                "conflict": conflict}
 
